@@ -206,6 +206,10 @@ class Interstitial(object):
                     if g is not None:
                         superdict['transmapping'][tag] += ((k, g, mapping),)
                         break
+                else:
+                    # no state supercell is equivalent to this endpoint (symmetry-lowering supercell): record that,
+                    # as VacancyMediated.makesupercells does, so that the entries stay (initial, final)
+                    superdict['transmapping'][tag] += (None,)
         for d in (superdict['states'], superdict['transitions']):
             for k in d.keys():
                 superdict['indices'][k] = self.tagdict[k]  # keep a local copy of the indices, for transformation later
